@@ -65,7 +65,7 @@ func txSession(v *drive.V2, w *Writer, shard, id int, d jd.Diff, begin Rec, targ
 	}
 	var d2 jd.Diff
 	r = drive.Guard(func() drive.Res {
-		x, err := jd.ReadDiffString(text)
+		x, err := drive.ReadDiffAny(text)
 		if err != nil {
 			return drive.Res{St: "err", Msg: err.Error()}
 		}
@@ -85,7 +85,7 @@ func txSession(v *drive.V2, w *Writer, shard, id int, d jd.Diff, begin Rec, targ
 		for _, c := range targets {
 			_, r1 := v.Patch(c, d, false)
 			// d2 is re-read for every target: Patch may keep references into the diff it is given
-			x, err := jd.ReadDiffString(text)
+			x, err := drive.ReadDiffAny(text)
 			if err != nil {
 				continue
 			}
